@@ -450,6 +450,33 @@ def run(ck):
             except ExpressionError:
                 pass
     ck.notes["history_oracle_runs"] = n_hist
+    # ---------- value oracle: an accepted expression reads its VARIABLES -- also when a variable is spelled like one of the
+    # whitelisted functions and stands in a non-call position; reference = Python's own evaluation with the variables
+    # as the innermost scope and only the whitelisted functions behind them
+    fns = {n: getattr(__import__("builtins"), n) for n in DOC_FUNCS}
+    val_cases = [("max if max == 10.0 else -1.0", {"max": 10.0}), ("(min, max)", {"min": 1.0, "max": 2.0}), ("max + min", {"min": 1.5, "max": 2.0}),
+                 ("abs(max) - min", {"min": 1.0, "max": -4.0}), ("int * 2", {"int": 3}), ("round", {"round": 0.25}), ("bool and str", {"bool": 1, "str": 7}),
+                 ("x + abs(x)", {"x": -2.0}), ("float if float else 0", {"float": 0.5}), ("-abs", {"abs": 4}), ("max(x, 1) + min", {"x": 3.0, "min": 2.0})]
+    n_val = 0
+    for src_, env in val_cases:
+        try:
+            fn = ExpressionEvaluator().compile(src_, set(env))
+        except ExpressionError:
+            continue
+        try:
+            want = ("value", repr(eval(src_, dict(fns, __builtins__={}), dict(env))))
+        except Exception as ex:  # noqa
+            want = ("raises", type(ex).__name__)
+        try:
+            got = ("value", repr(fn(**env)))
+        except Exception as ex:  # noqa
+            got = ("raises", type(ex).__name__)
+        n_val += 1
+        if got != want:
+            ck.fail_input("C11:evaluation-does-not-read-the-variable",
+                          "evaluating %r with %r gives %s, the variables' values give %s (a variable named like a whitelisted function is "
+                          "not what the expression reads)" % (src_, env, got, want), {"expr": src_, "names": sorted(env), "variables": env})
+    ck.notes["value_oracle_runs"] = n_val
     ck.cov["trusted_base"] = TRUSTED
 
 
